@@ -122,6 +122,7 @@ type Summary struct {
 	Failures           []Failure      `json:"failures"`
 	CaseFiles          []string       `json:"case_files"`
 	Extra              map[string]any `json:"extra,omitempty"`
+	failPerKey         map[string]int
 }
 
 // Failure is a direct property failure observed on the implementation (independent oracle).
@@ -138,8 +139,14 @@ func (s *Summary) Count(k string) {
 	s.Distribution[k]++
 }
 
+// Fail records a direct failure. At most 3 failures are kept per distinct key (and 600 overall),
+// so that one frequent failure class cannot hide another.
 func (s *Summary) Fail(key, what string, replay any) {
-	if len(s.Failures) < 200 {
+	if s.failPerKey == nil {
+		s.failPerKey = map[string]int{}
+	}
+	s.failPerKey[key]++
+	if s.failPerKey[key] <= 3 && len(s.Failures) < 600 {
 		s.Failures = append(s.Failures, Failure{key, what, replay})
 	}
 }
